@@ -113,6 +113,8 @@ def variants(c, seed=0):
     out.append(dict(c, variant="outside", positions=(pos + shift).tolist()))
     g = np.random.default_rng(1000 + seed).uniform(0.05, 0.45, 3)
     out.append(dict(c, variant="shifted", positions=(pos + g).tolist()))
+    # the way structures usually arrive: lattice and positions typed with 7 decimals (1/3 -> 0.3333333, a sqrt(3)/2 -> 2.5547750)
+    out.append(dict(c, variant="typed7", lattice=np.round(np.array(c["lattice"], float), 7).tolist(), positions=np.round(pos, 7).tolist()))
     return out
 
 
